@@ -7,6 +7,13 @@ TRUST = ("trusted base: go/types + go/ssa (x/tools v0.50.0), goyacc v0.29.0's LA
          "interface calls that leave the module (Entry, plugins) are opaque")
 
 CHECKS = {
+    "C16": dict(
+        cat="other",
+        text=("Decides the table and shape facts value validation rests on: the signed/unsigned bound tables hold the exact two's-complement bounds for every width (constant arithmetic) and values are parsed base 10 with the type's own width; the string length restriction is applied to a character count, not len(s); decimal64 range boundaries and the tested value are not float64 (a recorded finding today); patterns are compiled as ^(pattern)$; boolean accepts exactly true|false, empty rejects any value, enumeration/identityref accept iff a declared .Val equals the value, union iff some member accepts, each range/length part iff start <= v <= end; every rejection constructor in the Validate methods receives the path; the decimal64 lexical check has no success exit before the four exact comparisons with the 64-bit limits; identityValues lists every derived identity unconditionally."),
+        ref="DESIGN.md §4 C16",
+        technique="constant-table evaluation against computed bounds, argument-provenance and boolean-shape rules on the Validate methods, exit-structure rule on the decimal64 lexical check",
+        note="Not decided: pattern semantics (XSD vs RE2), decimal64 values between doubles (recorded finding R16.3). " + TRUST,
+    ),
     "C14": dict(
         cat="other",
         text=("Decides the structural rules behind config/status/if-feature/deviations: the properties each deviate kind accepts equal RFC 6020 7.18.3.2; the status constants are ordered and getStatus / assertReferenceStatus reject exactly 'own < inherited' and 'source < destination within one module'; getConfig is evaluated as a truth table over (inherited, own) — rejects exactly (false, true), returns own if present else inherited; IgnoreNode ignores not-supported nodes and any node with a disabled if-feature; isFeatureValid is the conjunction, accumulated over every dependency, of the feature's own enablement, and if-feature reads the verified value; BuildNode applies overrideInherited first and hands its result to every kind-specific builder; deviate delete removes the statement matched by type and argument, replace requires existence and substitutes by type, add appends."),
@@ -174,7 +181,7 @@ def main():
 
 
 NA = {}
-SOURCE_COMMITS = ["e91d74a fix: reject invalid UTF-8 inside literals and QName local parts", "ad0dbf5 fix: CreateProgram no longer panics when the error position underflows", "f5b2578 fix: a submodule may have at most one organization statement", "7be1c78 fix: spell the yin-element keyword correctly", "9e6f860 fix: boolean arguments accept only true and false", "779e276 fix: integer arguments are decimal only", "b95096a fix: identifiers are ASCII as the YANG ABNF requires", "2221591 fix: NewFakeNodeByType no longer writes into the shared cardinality table", "53dc864 fix: div follows IEEE 754 for a zero denominator", "ea66e69 fix: boolean() of NaN is false", "588031e fix: round() rounds ties towards positive infinity", "362e2bb fix: string() of a number never uses exponent notation", "9ac8c0a fix: string-length() and substring() count characters, not bytes", "9cf326e fix: a run stops at the first error an instruction reports", "fb4c9e7 fix: the tested-function table is accessed under the function-table lock", "8440a3d fix: the YANG lexer no longer hangs when the text ends inside an unquoted word", "bd7a52f fix: a failed parse no longer leaks the lexer goroutine", "8d5ab76 fix: a typedef that refers to itself is an error, not a stack overflow", "3484836 fix: shared features and groupings are not cycles", "71f7ba0 fix: grouping cycles through nested nodes are detected"]
+SOURCE_COMMITS = ["e91d74a fix: reject invalid UTF-8 inside literals and QName local parts", "ad0dbf5 fix: CreateProgram no longer panics when the error position underflows", "f5b2578 fix: a submodule may have at most one organization statement", "7be1c78 fix: spell the yin-element keyword correctly", "9e6f860 fix: boolean arguments accept only true and false", "779e276 fix: integer arguments are decimal only", "b95096a fix: identifiers are ASCII as the YANG ABNF requires", "2221591 fix: NewFakeNodeByType no longer writes into the shared cardinality table", "53dc864 fix: div follows IEEE 754 for a zero denominator", "ea66e69 fix: boolean() of NaN is false", "588031e fix: round() rounds ties towards positive infinity", "362e2bb fix: string() of a number never uses exponent notation", "9ac8c0a fix: string-length() and substring() count characters, not bytes", "9cf326e fix: a run stops at the first error an instruction reports", "fb4c9e7 fix: the tested-function table is accessed under the function-table lock", "8440a3d fix: the YANG lexer no longer hangs when the text ends inside an unquoted word", "bd7a52f fix: a failed parse no longer leaks the lexer goroutine", "8d5ab76 fix: a typedef that refers to itself is an error, not a stack overflow", "3484836 fix: shared features and groupings are not cycles", "71f7ba0 fix: grouping cycles through nested nodes are detected", "2ff1e55 fix: string length restrictions count characters, not bytes"]
 
 if __name__ == "__main__":
     main()
